@@ -2,12 +2,11 @@
     (a user operation or a dropped partial request) no node is executed twice, and a node executed
     by any operation - cancelled work included - is not executed again before the next input
     session.  Unconditional in the program (no well-formedness needed) and in the partial
-    requests (arbitrary stack, caller, frame; no [mpartial_ok]); the only restriction on the
-    history is that sessions do not refresh external inputs (a refresh logs every external
-    input it re-reads). *)
+    requests (arbitrary stack, caller, frame; no [mpartial_ok]) and in the history (a refreshing
+    session logs every external input it re-reads, once: [s_ext] has no duplicates). *)
 From QV Require Import Common.Prelude Engine.Model Engine.Core Engine.CoreSpec Engine.CoreInvBase
   Engine.Fw Engine.FwBase Engine.FwMono Engine.FwOnce Engine.MdlSpec Engine.MdlBase Engine.MdlMono Engine.MdlCommit
-  Engine.MdlSound Engine.MdlOnce Engine.MdlCancel.
+  Engine.MdlWorld Engine.MdlSound Engine.MdlOnce Engine.MdlCancel.
 Open Scope Z_scope.
 
 Definition mop_once_scope (o : mop) : Prop :=
@@ -15,94 +14,191 @@ Definition mop_once_scope (o : mop) : Prop :=
 Definition mno_session_between (ops : list mop) (j i : nat) : Prop :=
   forall k sets b, (j <= k <= i)%nat -> nth_error ops k <> Some (MUser (OSession sets b)).
 
+Lemma sess_fold_ext : forall sets cur rs batch cur' rs' batch',
+  fold_left fsess_step sets (cur, rs, batch) = (cur', rs', batch') -> s_ext cur' = s_ext cur.
+Proof.
+  induction sets as [|[v x] r IH]; intros cur rs batch cur' rs' batch' H; cbn [fold_left] in H.
+  - inversion H. reflexivity.
+  - rewrite fsess_step_eq in H. apply IH in H. rewrite H. apply (proj2 (set_input_we _ _ _)).
+Qed.
+Lemma refresh_fold_ext0 : forall l cur batch cur' batch',
+  fold_left refresh_step l (cur, batch) = (cur', batch') -> s_ext cur' = s_ext cur.
+Proof.
+  induction l as [|e r IH]; intros cur batch cur' batch' H; cbn [fold_left] in H.
+  - inversion H. reflexivity.
+  - unfold refresh_step at 2 in H. cbv zeta in H. apply IH in H. rewrite H. rewrite (proj2 (set_input_we _ _ _)). reflexivity.
+Qed.
+
 Section COnce.
 Variable p : program.
-Variables tord bord : state -> node -> list node -> list node.
+Variables tord bord pord : state -> node -> list node -> list node.
 Variables fuel pfuel : nat.
 
-(** what an operation logs was not verified before it and is verified after it; the log has no
-    duplicates *)
-Lemma mop_execs_spec : forall s o, mop_once_scope o ->
-  NoDup (mop_execs_o tord bord fuel pfuel p s o) /\
-  forall m, In m (mop_execs_o tord bord fuel pfuel p s o) ->
-    sverified (fst (mstep_cancel_fo tord bord fuel pfuel p s o)) m /\ ~ sverified s m.
+(** a session logs the external inputs it refreshes, each once: [s_ext] has no duplicates *)
+Lemma session_execs : forall s sets b s' x,
+  step_f tord bord pord fuel pfuel p s (OSession sets b) = (s', x) ->
+  s_ext s' = s_ext s /\ (NoDup (s_ext s) -> NoDup (r_execs x)).
 Proof.
-  intros s o Hsc. destruct o as [o|stk c fr n]; cbn [mop_execs_o mstep_cancel_fo].
-  - destruct (step_f tord bord fuel pfuel p s o) as [s' x] eqn:Es. cbn [fst snd].
+  intros s sets b s' x H. rewrite step_f_session_gen in H. cbv zeta in H.
+  destruct (fold_left fsess_step sets (set_ts (set_log s []) (s_ts (set_log s []) + 1)%N, [], []))
+    as [[s1 rs] batch] eqn:Ef.
+  pose proof (sess_fold_ext _ _ _ _ _ _ _ Ef) as X1. pose proof (sess_fold_log _ _ _ _ _ _ _ Ef) as L1.
+  cbn [set_ts set_log s_ext s_log] in X1, L1.
+  destruct (if b then fold_left refresh_step (s_ext s1) (s1, batch) else (s1, batch)) as [s2 batch2] eqn:Er.
+  assert (X2 : s_ext s2 = s_ext s /\ s_log s2 = (if b then rev (s_ext s) else [])).
+  { destruct b.
+    - pose proof (refresh_fold_ext0 _ _ _ _ _ Er) as X. pose proof (refresh_fold_log _ _ _ _ _ Er) as L.
+      rewrite X, L, L1, X1, app_nil_r. auto.
+    - inversion Er. subst. auto. }
+  destruct X2 as [X2 L2].
+  destruct (propagate_o pord pfuel (set_visited (set_stat s2 0%N) []) batch2) as [s4| | |] eqn:Ep;
+    inversion H; subst; cbn [set_visited set_stat s_ext r_execs]; try (split; [exact X2|intros _; constructor]).
+  destruct (propagate_o_we _ _ _ _ _ Ep) as [_ Nx]. apply propagate_o_same in Ep. destruct Ep as (_ & _ & _ & L & _).
+  cbn [set_visited set_stat s_ext s_log] in Nx, L. split; [congruence|]. intro Hnd. rewrite L, L2.
+  destruct b; [rewrite rev_involutive; exact Hnd|constructor].
+Qed.
+
+(** every operation keeps [s_ext] duplicate-free *)
+Lemma mop_ext_nodup : forall s o, NoDup (s_ext s) -> NoDup (s_ext (fst (mstep_cancel_fop tord bord pord fuel pfuel p s o))).
+Proof.
+  intros s o Hnd. destruct o as [o|stk c fr n]; cbn [mstep_cancel_fop].
+  - destruct (step_f tord bord pord fuel pfuel p s o) as [s' x] eqn:Es. cbn [fst].
     destruct o as [sets b|n|w v|].
-    + cbn in Hsc. subst b. rewrite (step_f_session_execs _ _ _ _ _ _ _ _ _ Es). split; [constructor|intros m []].
-    + destruct (mstep_query_mono p tord bord fuel pfuel _ _ _ _ Es) as [[_ E]|[HM E]]; rewrite E; [split; [constructor|intros m []]|].
+    + rewrite (proj1 (session_execs _ _ _ _ _ Es)). exact Hnd.
+    + unfold step_f in Es.
+      destruct (query_for_o p None tord bord pord fuel [] CUser None n (set_log s [])) as [[[[o fr] ms] s1]| | |] eqn:Eq;
+        try (inversion Es; subst; exact Hnd).
+      apply (proj1 (mworld_all p tord bord pord fuel)) in Eq. destruct Eq as [_ Q].
+      destruct o as [[z|]|]; inversion Es; subst; apply Q; exact Hnd.
+    + cbn in Es. inversion Es. subst. exact Hnd.
+    + cbn in Es. inversion Es. subst. exact Hnd.
+  - cbn [fst]. unfold mpartial_fop.
+    destruct (query_for_o p None tord bord pord fuel stk c fr n (set_log s [])) as [[[[o fr'] ms] s1]| | |] eqn:Eq; try exact Hnd.
+    apply (proj1 (mworld_all p tord bord pord fuel)) in Eq. destruct Eq as [_ Q]. apply Q. exact Hnd.
+Qed.
+
+(** what an operation logs has no duplicates; unless it is a session, it was not verified before
+    the operation and is verified after it *)
+Lemma mop_execs_spec : forall s o,
+  (NoDup (s_ext s) -> NoDup (mop_execs_op tord bord pord fuel pfuel p s o)) /\
+  ((forall sets b, o <> MUser (OSession sets b)) ->
+   forall m, In m (mop_execs_op tord bord pord fuel pfuel p s o) ->
+    sverified (fst (mstep_cancel_fop tord bord pord fuel pfuel p s o)) m /\ ~ sverified s m).
+Proof.
+  intros s o. destruct o as [o|stk c fr n]; cbn [mop_execs_op mstep_cancel_fop].
+  - destruct (step_f tord bord pord fuel pfuel p s o) as [s' x] eqn:Es. cbn [fst snd].
+    destruct o as [sets b|n|w v|].
+    + split; [apply (proj2 (session_execs _ _ _ _ _ Es))|]. intros Hns. exfalso. eapply Hns. reflexivity.
+    + destruct (mstep_query_mono p tord bord pord fuel pfuel _ _ _ _ Es) as [[_ E]|[HM E]]; rewrite E;
+        [split; [intros _; constructor|intros _ m []]|].
       destruct (mr_log _ _ _ HM) as [new [L [N P]]]. cbn [set_log s_log] in L. rewrite app_nil_r in L. rewrite L.
-      split; [apply NoDup_rev; exact N|]. intros m Hm. apply in_rev in Hm.
+      split; [intros _; apply NoDup_rev; exact N|]. intros _ m Hm. apply in_rev in Hm.
       destruct (P m Hm) as (_ & A & B). split; [exact B|exact A].
-    + cbn in Es. inversion Es. subst. split; [constructor|intros m []].
-    + cbn in Es. inversion Es. subst. split; [constructor|intros m []].
-  - unfold mpartial_fo.
-    destruct (query_for_o p None tord bord fuel stk c fr n (set_log s [])) as [[[[o fr'] ms] s1]| | |] eqn:Eq; cbn [fst set_log s_log rev];
-      try (split; [constructor|intros m []]).
-    apply (proj1 (mmono_all p tord bord fuel)) in Eq.
+    + cbn in Es. inversion Es. subst. split; [intros _; constructor|intros _ m []].
+    + cbn in Es. inversion Es. subst. split; [intros _; constructor|intros _ m []].
+  - unfold mpartial_fop.
+    destruct (query_for_o p None tord bord pord fuel stk c fr n (set_log s [])) as [[[[o fr'] ms] s1]| | |] eqn:Eq; cbn [fst set_log s_log rev];
+      try (split; [intros _; constructor|intros _ m []]).
+    apply (proj1 (mmono_all p tord bord pord fuel)) in Eq.
     destruct (mr_log _ _ _ Eq) as [new [L [N P]]]. cbn [set_log s_log] in L. rewrite app_nil_r in L. rewrite L.
-    split; [apply NoDup_rev; exact N|]. intros m Hm. apply in_rev in Hm.
+    split; [intros _; apply NoDup_rev; exact N|]. intros _ m Hm. apply in_rev in Hm.
     destruct (P m Hm) as (_ & A & B). split; [exact B|exact A].
 Qed.
 
 Lemma mop_keeps_verified : forall s o m,
   (forall sets b, o <> MUser (OSession sets b)) ->
-  sverified s m -> sverified (fst (mstep_cancel_fo tord bord fuel pfuel p s o)) m.
+  sverified s m -> sverified (fst (mstep_cancel_fop tord bord pord fuel pfuel p s o)) m.
 Proof.
-  intros s o m Hns Hv. destruct o as [o|stk c fr n]; cbn [mstep_cancel_fo].
-  - destruct (step_f tord bord fuel pfuel p s o) as [s' x] eqn:Es. cbn [fst].
+  intros s o m Hns Hv. destruct o as [o|stk c fr n]; cbn [mstep_cancel_fop].
+  - destruct (step_f tord bord pord fuel pfuel p s o) as [s' x] eqn:Es. cbn [fst].
     destruct o as [sets b|n|w v|].
     + exfalso. eapply Hns. reflexivity.
-    + destruct (mstep_query_mono p tord bord fuel pfuel _ _ _ _ Es) as [[-> _]|[HM _]]; [exact Hv|].
+    + destruct (mstep_query_mono p tord bord pord fuel pfuel _ _ _ _ Es) as [[-> _]|[HM _]]; [exact Hv|].
       eapply sverified_mono; [exact HM|]. exact Hv.
     + cbn in Es. inversion Es. subst. exact Hv.
     + cbn in Es. inversion Es. subst. exact Hv.
-  - cbn [fst]. unfold mpartial_fo.
-    destruct (query_for_o p None tord bord fuel stk c fr n (set_log s [])) as [[[[o fr'] ms] s1]| | |] eqn:Eq; try exact Hv.
-    apply (proj1 (mmono_all p tord bord fuel)) in Eq. eapply sverified_mono; [exact Eq|]. exact Hv.
+  - cbn [fst]. unfold mpartial_fop.
+    destruct (query_for_o p None tord bord pord fuel stk c fr n (set_log s [])) as [[[[o fr'] ms] s1]| | |] eqn:Eq; try exact Hv.
+    apply (proj1 (mmono_all p tord bord pord fuel)) in Eq. eapply sverified_mono; [exact Eq|]. exact Hv.
 Qed.
 
-Lemma mexecs_nodup : forall ops s i l, Forall mop_once_scope ops ->
-  nth_error (mexecs_cancel_fo tord bord fuel pfuel p s ops) i = Some l -> NoDup l.
+Lemma mexecs_nodup : forall ops s i l, NoDup (s_ext s) ->
+  nth_error (mexecs_cancel_fop tord bord pord fuel pfuel p s ops) i = Some l -> NoDup l.
 Proof.
-  induction ops as [|o rest IH]; intros s i l Hsc H; [destruct i; discriminate|].
-  inversion Hsc as [|? ? Ho Hr]; subst. cbn [mexecs_cancel_fo] in H. destruct i as [|i].
-  - cbn in H. inversion H. subst. apply mop_execs_spec. assumption.
-  - cbn [nth_error] in H. eapply IH; eauto.
+  induction ops as [|o rest IH]; intros s i l Hnd H; [destruct i; discriminate|].
+  cbn [mexecs_cancel_fop] in H. destruct i as [|i].
+  - cbn in H. inversion H. subst. apply mop_execs_spec. exact Hnd.
+  - cbn [nth_error] in H. eapply IH; [|exact H]. apply mop_ext_nodup. exact Hnd.
 Qed.
 
-Lemma mexecs_verified_not_executed : forall ops s i m l, Forall mop_once_scope ops ->
+Lemma mexecs_verified_not_executed : forall ops s i m l,
   sverified s m ->
   (forall k sets b, (k <= i)%nat -> nth_error ops k <> Some (MUser (OSession sets b))) ->
-  nth_error (mexecs_cancel_fo tord bord fuel pfuel p s ops) i = Some l -> ~ In m l.
+  nth_error (mexecs_cancel_fop tord bord pord fuel pfuel p s ops) i = Some l -> ~ In m l.
 Proof.
-  induction ops as [|o rest IH]; intros s i m l Hsc Hv Hns H Hm; [destruct i; discriminate|].
-  inversion Hsc as [|? ? Ho Hr]; subst. cbn [mexecs_cancel_fo] in H. destruct i as [|i].
-  - cbn in H. inversion H. subst. destruct (proj2 (mop_execs_spec s o Ho) m Hm) as [_ K]. contradiction.
-  - cbn [nth_error] in H. apply (IH _ i m l Hr) in H; auto.
-    + apply mop_keeps_verified; [|exact Hv]. intros sets b ->. apply (Hns 0%nat sets b); [lia|reflexivity].
+  induction ops as [|o rest IH]; intros s i m l Hv Hns H Hm; [destruct i; discriminate|].
+  assert (Ho : forall sets b, o <> MUser (OSession sets b)).
+  { intros sets b ->. apply (Hns 0%nat sets b); [lia|reflexivity]. }
+  cbn [mexecs_cancel_fop] in H. destruct i as [|i].
+  - cbn in H. inversion H. subst. destruct (proj2 (mop_execs_spec s o) Ho m Hm) as [_ K]. contradiction.
+  - cbn [nth_error] in H. apply (IH _ i m l) in H; auto.
+    + apply mop_keeps_verified; [exact Ho|exact Hv].
     + intros k sets b Hk. apply (Hns (S k) sets b). lia.
 Qed.
 
-Lemma mexecs_once : forall ops s j i m lj li, Forall mop_once_scope ops ->
+Lemma mexecs_once : forall ops s j i m lj li,
   (j < i)%nat ->
-  nth_error (mexecs_cancel_fo tord bord fuel pfuel p s ops) j = Some lj -> In m lj ->
-  nth_error (mexecs_cancel_fo tord bord fuel pfuel p s ops) i = Some li -> In m li ->
+  nth_error (mexecs_cancel_fop tord bord pord fuel pfuel p s ops) j = Some lj -> In m lj ->
+  nth_error (mexecs_cancel_fop tord bord pord fuel pfuel p s ops) i = Some li -> In m li ->
   ~ mno_session_between ops j i.
 Proof.
-  induction ops as [|o rest IH]; intros s j i m lj li Hsc Hji Hj Hmj Hi Hmi Hns; [destruct j; discriminate|].
-  inversion Hsc as [|? ? Ho Hr]; subst. cbn [mexecs_cancel_fo] in Hj, Hi. destruct i as [|i]; [lia|]. cbn [nth_error] in Hi.
+  induction ops as [|o rest IH]; intros s j i m lj li Hji Hj Hmj Hi Hmi Hns; [destruct j; discriminate|].
+  cbn [mexecs_cancel_fop] in Hj, Hi. destruct i as [|i]; [lia|]. cbn [nth_error] in Hi.
   destruct j as [|j].
-  - cbn in Hj. inversion Hj. subst. destruct (proj2 (mop_execs_spec s o Ho) m Hmj) as [Hv _].
-    eapply (mexecs_verified_not_executed rest _ i m li Hr Hv); eauto.
+  - assert (Ho : forall sets b, o <> MUser (OSession sets b)).
+    { intros sets b ->. apply (Hns 0%nat sets b); [lia|reflexivity]. }
+    cbn in Hj. inversion Hj. subst. destruct (proj2 (mop_execs_spec s o) Ho m Hmj) as [Hv _].
+    eapply (mexecs_verified_not_executed rest _ i m li Hv); eauto.
     intros k sets b Hk. apply (Hns (S k) sets b). lia.
-  - cbn [nth_error] in Hj. eapply (IH _ j i m lj li Hr); eauto; [lia|].
+  - cbn [nth_error] in Hj. eapply (IH _ j i m lj li); eauto; [lia|].
     intros k sets b Hk. apply (Hns (S k) sets b). lia.
 Qed.
 End COnce.
 
-(** shape of [C05_core_cancel_once]; for every order oracle (no hypothesis on them) *)
+(** shape of [C05_core_cancel_once]; EVERY history (refreshing sessions included: the list of
+    external inputs has no duplicates), every order oracle (no hypothesis on them) *)
+Definition model_cancel_once_all_statement_fop : Prop :=
+  forall (tord bord pord : oracle) fuel pfuel p ops i j m lj li,
+    let ex := mexecs_cancel_fop tord bord pord fuel pfuel p init_state ops in
+    (nth_error ex i = Some li -> NoDup li) /\
+    ((j < i)%nat -> nth_error ex j = Some lj -> In m lj -> nth_error ex i = Some li -> In m li ->
+     ~ mno_session_between ops j i).
+Theorem model_cancel_once_all_fop : model_cancel_once_all_statement_fop.
+Proof.
+  intros tord bord pord fuel pfuel p ops i j m lj li. cbv zeta. split.
+  - intro H. eapply mexecs_nodup; [|exact H]. constructor.
+  - intros. eapply mexecs_once; eauto.
+Qed.
+(** the schedule in list order, the fuel the model fixes *)
+Definition model_cancel_once_all_statement : Prop :=
+  forall p ops i j m lj li,
+    let ex := mexecs_cancel_f fuel0 4000 p init_state ops in
+    (nth_error ex i = Some li -> NoDup li) /\
+    ((j < i)%nat -> nth_error ex j = Some lj -> In m lj -> nth_error ex i = Some li -> In m li ->
+     ~ mno_session_between ops j i).
+Theorem model_cancel_once_all : model_cancel_once_all_statement.
+Proof. intros p. exact (model_cancel_once_all_fop ord_id ord_id ord_id fuel0 4000%nat p). Qed.
+
+(** the earlier statements, with the (now superfluous) restriction to sessions without refresh *)
+Definition model_cancel_once_statement_fop : Prop :=
+  forall (tord bord pord : oracle) fuel pfuel p ops i j m lj li, Forall mop_once_scope ops ->
+    let ex := mexecs_cancel_fop tord bord pord fuel pfuel p init_state ops in
+    (nth_error ex i = Some li -> NoDup li) /\
+    ((j < i)%nat -> nth_error ex j = Some lj -> In m lj -> nth_error ex i = Some li -> In m li ->
+     ~ mno_session_between ops j i).
+Theorem model_cancel_once_fop : model_cancel_once_statement_fop.
+Proof. intros tord bord pord fuel pfuel p ops i j m lj li _. apply model_cancel_once_all_fop. Qed.
+(** the dirty propagation in list order *)
 Definition model_cancel_once_statement_fo : Prop :=
   forall (tord bord : oracle) fuel pfuel p ops i j m lj li, Forall mop_once_scope ops ->
     let ex := mexecs_cancel_fo tord bord fuel pfuel p init_state ops in
@@ -110,11 +206,7 @@ Definition model_cancel_once_statement_fo : Prop :=
     ((j < i)%nat -> nth_error ex j = Some lj -> In m lj -> nth_error ex i = Some li -> In m li ->
      ~ mno_session_between ops j i).
 Theorem model_cancel_once_fo : model_cancel_once_statement_fo.
-Proof.
-  intros tord bord fuel pfuel p ops i j m lj li Hsc. cbv zeta. split.
-  - intro H. eapply mexecs_nodup; eauto.
-  - intros. eapply mexecs_once; eauto.
-Qed.
+Proof. intros tord bord. exact (model_cancel_once_fop tord bord ord_id). Qed.
 (** the schedule in list order *)
 Definition model_cancel_once_statement_f : Prop :=
   forall fuel pfuel p ops i j m lj li, Forall mop_once_scope ops ->
@@ -123,7 +215,7 @@ Definition model_cancel_once_statement_f : Prop :=
     ((j < i)%nat -> nth_error ex j = Some lj -> In m lj -> nth_error ex i = Some li -> In m li ->
      ~ mno_session_between ops j i).
 Theorem model_cancel_once_f : model_cancel_once_statement_f.
-Proof. intros fuel pfuel p. exact (model_cancel_once_fo ord_id ord_id fuel pfuel p). Qed.
+Proof. intros fuel pfuel p. exact (model_cancel_once_fop ord_id ord_id ord_id fuel pfuel p). Qed.
 Definition model_cancel_once_statement : Prop :=
   forall p ops i j m lj li, Forall mop_once_scope ops ->
     let ex := mexecs_cancel_f fuel0 4000 p init_state ops in
@@ -133,5 +225,7 @@ Definition model_cancel_once_statement : Prop :=
 Theorem model_cancel_once : model_cancel_once_statement.
 Proof. intros p. apply model_cancel_once_f. Qed.
 
-Print Assumptions model_cancel_once_fo.
+Print Assumptions model_cancel_once_all_fop.
+Print Assumptions model_cancel_once_all.
+Print Assumptions model_cancel_once_fop.
 Print Assumptions model_cancel_once.
